@@ -6,6 +6,7 @@ import (
 	"fmt"
 	"strings"
 	"sync"
+	"sync/atomic"
 	"time"
 
 	"github.com/TarsCloud/TarsGo/tars/selector"
@@ -151,6 +152,7 @@ func histMain(args []string) error {
 	results := map[string][][]byte{}
 	jobs := make(chan job, 1024)
 	var wg sync.WaitGroup
+	var hangs int32
 	for w := 0; w < *par; w++ {
 		wg.Add(1)
 		go func() {
@@ -158,7 +160,12 @@ func histMain(args []string) error {
 			for j := range jobs {
 				rec := histRec{I: j.i, S: j.st, Wt: j.wt}
 				// a history that does not come back (lock never released) is retried with growing patience
-				for _, patience := range []time.Duration{2 * time.Second, 4 * time.Second, 8 * time.Second} {
+				patiences := []time.Duration{2 * time.Second, 4 * time.Second, 8 * time.Second}
+				if atomic.LoadInt32(&hangs) >= 4 {
+					// the selector evidently blocks: do not spend the whole budget waiting for every history
+					patiences = []time.Duration{300 * time.Millisecond}
+				}
+				for _, patience := range patiences {
 					done := make(chan []obsJ, 1)
 					go func() { done <- runHistory(j.st, j.wt, kOf[j.st], scripts[j.i]) }()
 					tm := time.NewTimer(patience)
@@ -172,6 +179,9 @@ func histMain(args []string) error {
 					if !rec.Hang {
 						break
 					}
+				}
+				if rec.Hang {
+					atomic.AddInt32(&hangs, 1)
 				}
 				if rec.Obs == nil {
 					rec.Obs = []obsJ{}
